@@ -58,6 +58,17 @@ CHECKS = {
         "observation of 'token touched'. Policy/OPA mode and bearer tokens are not covered.",
    technique="TLA+ spec + TLC exhaustive; per-configuration expected outcomes replayed on the real server handler",
    engine="authz"),
+ "C06": dict(cat="model_checking", design="§4 C06",
+   text="spec/SignServer.tla (interleaved requests x sink configurations x sink failures: AuditComplete, NoDuplicate, "
+        "SinkFailureBlocks, RecordFaithful, UsedIsRequested, liveness) and spec/AuditLog.tla (N appenders at system-call grain: "
+        "WholeLines, NoLostLine) checked by TLC with 8 negative controls. Binding: a real server under concurrent load in 7 sink "
+        "configurations; hook events + client request/response events + the audit file's actual lines are validated by "
+        "SignServer_Trace (all invariants after every event); strace of the appenders validated by AuditLog_Trace (O_APPEND, one "
+        "whole line per write); hook-independent end-state checks; the standalone binary with auditfile.",
+   note="Trusted: verif hooks' placement (ordering evidence), strace, the fake token. No AMQP broker exists in the sandbox: "
+        "the AMQP success path is model-only, the refusing-broker path is exercised for real.",
+   technique="TLA+ specs + TLC; traces recorded from the real server (hooks, strace) validated against the specs",
+   engine="signserver"),
 }
 
 NOT_YET = {}
